@@ -430,6 +430,8 @@ func checkC04(c *Ctx) {
 	ruleNoFreeTextInHandlers(c, "C04.j")
 	c.rule("C04.k", "bytes read raw from the connection enter error messages only quoted (no CR/LF inside a response line)", 1)
 	ruleWireBytesQuotedInErrors(c, "C04.k")
+	c.rule("C04.l", "the trailing-literal recogniser of DiscardLine accepts every literal size, zero included", 1)
+	ruleTrailingLiteralSizes(c, "C04.l")
 	c.assume("an I/O error returned by a tagged writer means the connection is dead; a second write attempt is not counted as a second completion")
 
 	readCommand := p.Func("imapserver", "Conn", "readCommand")
